@@ -71,6 +71,8 @@ type acaseT struct {
 	PreAt int     `json:",omitempty"`
 	// AbortFirst: the failing handler calls c.Abort() itself before it fails (guard style)
 	AbortFirst bool `json:",omitempty"`
+	// Prod: the app runs in the production environment (app.WithEnvironment("production"))
+	Prod bool `json:",omitempty"`
 	// NoCancelCheck: the app's router is built with router.WithoutCancellationCheck() (its other Next loop)
 	NoCancelCheck bool `json:",omitempty"`
 	// NextAfterFail: the failing handler goes on to call c.Next() after it failed (a guard with a missing return)
@@ -319,6 +321,7 @@ type builtApp struct {
 }
 
 var apps = map[string]*builtApp{}
+var tableOptions = map[string]app.Option{}
 
 func lastOffers(opts []optT) []string {
 	var offers []string
@@ -347,9 +350,9 @@ func permutations(xs []string) [][]string {
 	return out
 }
 
-func getApp(opts []optT, noCancel bool) *builtApp {
+func getApp(opts []optT, noCancel, prod bool) *builtApp {
 	keyB, _ := json.Marshal(opts)
-	key := string(keyB) + fmt.Sprint(noCancel)
+	key := string(keyB) + fmt.Sprint(noCancel, prod)
 	if b, ok := apps[key]; ok {
 		return b
 	}
@@ -357,16 +360,27 @@ func getApp(opts []optT, noCancel bool) *builtApp {
 	if noCancel {
 		ao = append(ao, app.WithRouter(router.WithoutCancellationCheck()))
 	}
+	if prod {
+		ao = append(ao, app.WithEnvironment("production"))
+	}
 	for _, o := range opts {
 		switch {
 		case o.F != nil:
 			ao = append(ao, app.WithErrorFormatter(o.F.build()))
 		case o.IsM:
-			m := map[string]riverrors.Formatter{}
-			for _, e := range o.M {
-				m[e.MT] = e.F.build()
+			// one option VALUE per table, shared by every app configured with that table (as a package-level
+			// `var errorFormats = app.WithErrorFormatters(...)` would be): apps must not share state through it
+			mk, _ := json.Marshal(o.M)
+			opt, ok := tableOptions[string(mk)]
+			if !ok {
+				m := map[string]riverrors.Formatter{}
+				for _, e := range o.M {
+					m[e.MT] = e.F.build()
+				}
+				opt = app.WithErrorFormatters(m)
+				tableOptions[string(mk)] = opt
 			}
-			ao = append(ao, app.WithErrorFormatters(m))
+			ao = append(ao, opt)
 		case o.D != nil:
 			ao = append(ao, app.WithDefaultErrorFormat(*o.D))
 		}
@@ -521,7 +535,7 @@ func observe(slot, st int, ct string, body []byte, panicked bool) obsT {
 }
 
 func runA(k acaseT) (obsT, []string) {
-	b := getApp(k.Opts, k.NoCancelCheck)
+	b := getApp(k.Opts, k.NoCancelCheck, k.Prod)
 	answers := answersFor(b, k.Accept)
 	arm(0, &k)
 	st, ct, body, panicked := serve(b, k.Wire, k.route(), k.Accept, 0)
@@ -569,7 +583,7 @@ func (w *parkWriter) Write(p []byte) (int, error) {
 }
 
 func runO(k ocaseT) ([]obsT, [][]string) {
-	b := getApp(k.Opts, false)
+	b := getApp(k.Opts, false, false)
 	n := len(k.Reqs)
 	answers := make([][]string, n)
 	for i := range k.Reqs {
@@ -943,6 +957,9 @@ func lineA(id string, k acaseT, o obsT, answers []string, st *hx.Stats) string {
 		}
 		if k.NoCancelCheck {
 			st.Count("fail_router_without_cancellation_check")
+		}
+		if k.Prod {
+			st.Count("fail_production_environment")
 		}
 	}
 	return l.String()
